@@ -31,6 +31,7 @@
 #include "icinga/user.hpp"
 #include "remote/apiuser.hpp"
 #include "remote/consolehandler.hpp"
+#include "remote/eventqueue.hpp"
 #include "remote/filterutility.hpp"
 #include <boost/beast/http.hpp>
 #include <dirent.h>
@@ -304,7 +305,31 @@ static Outcome EvalAt(const std::string& site, const String& text, const Object:
 	if (site == "console") return EvalConsoleSite(text);
 	if (site == "event") {
 		Dictionary::Ptr event = new Dictionary({ { "type", "CheckResult" }, { "host", "c19-host" }, { "timestamp", 1000 } });
-		return EvalWithFrame(text, true, event, "event");
+		/* (a) the production entry point itself: EventQueue::ProcessEvent builds the sandboxed frame, evaluates
+		 * the filter, swallows any error and enqueues the event when the filter held (eventqueue.cpp:30-56) */
+		bool queued = false, compiled = false;
+		try {
+			std::unique_ptr<Expression> expr = ConfigCompiler::CompileText("<C19>", text);
+			compiled = true;
+			EventQueue::Ptr q = new EventQueue("c19-queue");
+			q->SetTypes({ "CheckResult" });
+			q->SetFilter(std::move(expr));
+			int client = 0;
+			q->AddClient(&client);
+			q->ProcessEvent(event);
+			queued = q->WaitForEvent(&client, 0) != nullptr;
+			q->RemoveClient(&client);
+		} catch (const std::exception& ex) {
+			if (compiled) {
+				std::string m = DiagnosticInformation(ex, false).CStr();
+				return { "escaped", m };         /* ProcessEvent must never throw */
+			}
+		}
+		/* (b) ProcessEvent hides the outcome, so the same frame is built once more to classify it */
+		Outcome oc = EvalWithFrame(text, true, event, "event");
+		if (queued && oc.kind != "ok")
+			return { "inconsistent", "event was queued although the filter raised: " + oc.text };
+		return oc;
 	}
 	/* fobj */
 	return EvalWithFrame(text, false, target ? target : Object::Ptr(l_Host), "");
@@ -402,7 +427,7 @@ static const Canned l_Canned[] = {
 	{ "{ a = 1 }", "(dict 0 (setScoped this a literal (num 1)))", 1 },
 	/* const, namespace, function */
 	{ "const C19Const_%S = 42", "(setConst C19Const_%S (num 42))", 1 },
-	{ "const C19Global = \"%S\"", "(setConst C19Global (str %S))", 0 },
+	{ "const C19Global = \"%S\"", "(setConst C19Global (str %S))", 1 },
 	{ "namespace C19Ns_%S { x = 1 }", "(setScoped globals C19Ns_%S literal (namespace (dict 0 (setVar x literal (num 1)))))", 1 },
 	{ "function c19_f_%S() { return 1 }", "(setScoped this c19_f_%S literal (function c19_f_%S (return (num 1))))", 1 },
 	{ "(x) => x", "(function lambda (var x))", 1 },
@@ -497,6 +522,90 @@ static std::string Subst(std::string s, const std::string& site)
 		s.replace(p, 2, l_DataDir.CStr());
 	}
 	return s;
+}
+
+/* ---------------------------------------------------------------- nested programs (seeded) */
+
+/* ho: contains a higher-order native call (outcome not compared); se: the parser counts it as having a side effect
+ * (a value that is computed and not used is a compile-time error: config_parser.yy:274,727,747,769) */
+struct Prog { std::string src, abs; bool ho; bool se = true; };
+
+static Prog GenStmtRaw(Rng& rng, int depth, int& id);
+
+/* needSE: the position demands a statement with a side effect (non-last statement of a block, any statement of a for body) */
+static Prog GenStmt(Rng& rng, int depth, int& id, bool needSE = false)
+{
+	for (int i = 0; i < 6; i++) {
+		Prog p = GenStmtRaw(rng, depth, id);
+		if (p.se || !needSE) return p;
+	}
+	return { "log(\"x\")", "(call (fn System#log) (str x))", false, true };
+}
+
+static Prog Leaf(Rng& rng)
+{
+	switch (rng.below(4)) {
+		case 0: return { "1", "(num 1)", false, false };
+		case 1: return { "0", "(num 0)", false, false };
+		case 2: return { "\"\"", "(str)", false, false };
+		default: return { "C19Global", "(var C19Global)", false, false };
+	}
+}
+
+static Prog GenExpr(Rng& rng, int depth, int& id)
+{
+	int k = (int)rng.below(depth > 0 ? 12 : 6);
+	switch (k) {
+		case 0: case 1: return Leaf(rng);
+		case 2: return { "log(\"x\")", "(call (fn System#log) (str x))", false };
+		case 3: return { "C19Arr.add(1)", "(mcall (var C19Arr) add (num 1))", false };
+		case 4: return { "C19Dict.remove(\"a\")", "(mcall (var C19Dict) remove (str a))", false };
+		case 5: return { "get_object(Host, \"c19-host\").modify_attribute(\"display_name\", \"n\")",
+			"(mcall (obj c19-host) modify_attribute (str display_name) (str n))", false };
+		case 6: { Prog l = Leaf(rng), r = GenExpr(rng, depth - 1, id);
+			return { "(" + l.src + " && " + r.src + ")", "(land " + l.abs + " " + r.abs + ")", r.ho, false }; }
+		case 7: { Prog l = Leaf(rng), r = GenExpr(rng, depth - 1, id);
+			return { "(" + l.src + " || " + r.src + ")", "(lor " + l.abs + " " + r.abs + ")", r.ho, false }; }
+		case 8: { Prog e = GenExpr(rng, depth - 1, id);
+			return { "[ " + e.src + " ]", "(array " + e.abs + ")", e.ho, false }; }
+		case 9: { Prog b = GenStmt(rng, depth - 1, id);
+			return { "((x) => { " + b.src + " })(1)", "(call (function lambda (dict 1 " + b.abs + ")) (num 1))", b.ho }; }
+		default: {
+			static const char *hof[] = { "map", "filter", "any", "all", "sort", "reduce" };
+			const char *m = hof[rng.below(6)];
+			Prog b = GenStmt(rng, depth - 1, id);
+			return { std::string("C19Arr.") + m + "((x) => { " + b.src + " })",
+				std::string("(mcall (var C19Arr) ") + m + " (function lambda (dict 1 " + b.abs + ")))", true };
+		}
+	}
+}
+
+static Prog GenStmtRaw(Rng& rng, int depth, int& id)
+{
+	int k = (int)rng.below(depth > 0 ? 14 : 8);
+	std::string n = std::to_string(++id);
+	switch (k) {
+		case 0: case 1: return GenExpr(rng, depth, id);
+		case 2: return { "C19Global = 1", "(setVar C19Global literal (num 1))", false };
+		case 3: return { "const C19N_" + n + " = 1", "(setConst C19N_" + n + " (num 1))", false };
+		case 4: return { "globals.C19New_" + n + " = 1", "(setScoped globals C19New_" + n + " literal (num 1))", false };
+		case 5: return { "get_object(Host, \"c19-host\").display_name = \"n\"", "(setField (obj c19-host) display_name literal (str n))", false };
+		case 6: return { "throw \"x\"", "(throw (str x))", false };
+		case 7: return { "var v_" + n + " = 1", "(setScoped locals v_" + n + " literal (num 1))", false };
+		case 8: case 9: { Prog a = GenStmt(rng, depth - 1, id), b = GenStmt(rng, depth - 1, id);
+			return { "try { " + a.src + " } except { " + b.src + " }", "(tryExcept (dict 1 " + a.abs + ") (dict 1 " + b.abs + "))", a.ho || b.ho }; }
+		case 10: { Prog c = Leaf(rng), a = GenStmt(rng, depth - 1, id), b = GenStmt(rng, depth - 1, id);
+			return { "if (" + c.src + ") { " + a.src + " } else { " + b.src + " }", "(cond " + c.abs + " (dict 1 " + a.abs + ") (dict 1 " + b.abs + "))", a.ho || b.ho }; }
+		case 11: { Prog a = GenStmt(rng, depth - 1, id, true), b = GenStmt(rng, depth - 1, id), c = GenStmt(rng, depth - 1, id);
+			return { "try { " + a.src + "; " + b.src + " } except { " + c.src + " }",
+				"(tryExcept (dict 1 " + a.abs + " " + b.abs + ") (dict 1 " + c.abs + "))", a.ho || b.ho || c.ho }; }
+		case 12: { Prog a = GenStmt(rng, depth - 1, id);
+			return { "while (false) { " + a.src + " }", "(while (bool 0) (dict 1 " + a.abs + "))", a.ho }; }
+		default: { Prog a = GenStmt(rng, depth - 1, id, true);
+			/* the parser demands a side effect in a for body: lead with a call */
+			return { "for (x in [ 1 ]) { log(x); " + a.src + " }",
+				"(for x _ (array (num 1)) (dict 1 (call (fn System#log) (var x)) " + a.abs + "))", a.ho }; }
+	}
 }
 
 /* ---------------------------------------------------------------- natives by reflection */
@@ -727,6 +836,25 @@ int main(int argc, char **argv)
 				op << "P " << site << " cmp=" << c.cmp << " root=" << RootKind(src) << " abs=" << abs;
 				Observe(op.str(), site, src);
 			}
+
+		/* 1b. nested programs combining statement forms (guarded statements inside try/except inside lambdas
+		 * passed to safe higher-order natives, conditionals, short-circuit operators, loops) */
+		{
+			int nested = thorough ? 3000 : 400, id = 0;
+			for (int i = 0; i < nested; i++) {
+				Prog p;
+				for (int t = 0; t < 20; t++) {     /* really nested: at least one block */
+					p = GenStmt(rng, 2 + (int)rng.below(thorough ? 3 : 2), id);
+					if (p.src.find('{') != std::string::npos) break;
+				}
+				const char *site = sites[rng.below(3)];
+				std::string abs = p.abs;
+				for (auto& ch : abs) if (ch == ' ') ch = ',';
+				std::ostringstream op;
+				op << "P " << site << " cmp=" << (p.ho ? 0 : 1) << " root=" << RootKind(p.src) << " abs=" << abs;
+				Observe(op.str(), site, p.src);
+			}
+		}
 
 		/* 2. hidden fields of every type */
 		GenHidden();
